@@ -666,20 +666,27 @@ func (p *Policy) blockAccountDeferrable(ic *interop.Context, args []stackitem.It
 }
 
 func (p *Policy) BlockAccountInternalDeferrable(ic *interop.Context, hash util.Uint160, handleRes func(res bool)) {
-	i, blocked := p.isBlockedInternal(ic.DAO.GetROCache(p.ID).(*PolicyCache), hash)
+	_, blocked := p.isBlockedInternal(ic.DAO.GetROCache(p.ID).(*PolicyCache), hash)
 	if blocked {
 		handleRes(false)
 		return
 	}
 
 	continuation := func() {
+		// Votes revocation pays GAS with a callback, so contract code could have
+		// run (and changed the list) since the check above.
+		cache := ic.DAO.GetRWCache(p.ID).(*PolicyCache)
+		i, blocked := p.isBlockedInternal(cache, hash)
+		if blocked {
+			handleRes(false)
+			return
+		}
 		key := makeBlockedAccountKey(hash)
 		if ic.IsHardforkEnabled(config.HFFaun) {
 			ic.DAO.PutBigInt(p.ID, key, new(big.Int).SetUint64(ic.GetTime()))
 		} else {
 			ic.DAO.PutStorageItem(p.ID, key, state.StorageItem{})
 		}
-		cache := ic.DAO.GetRWCache(p.ID).(*PolicyCache)
 		if len(cache.blockedAccounts) == i {
 			cache.blockedAccounts = append(cache.blockedAccounts, hash)
 		} else {
